@@ -3,7 +3,9 @@ package c20
 
 import (
 	"encoding/json"
+	"errors"
 	"fmt"
+	"io/fs"
 	"math"
 	"reflect"
 	"regexp"
@@ -503,6 +505,44 @@ func run(c *fw.Ctx) {
 		{"empty json.RawMessage", json.RawMessage{}, true, json.RawMessage{}},
 		{"nil *time.Duration", nilD, false, nil}, {"*time.Duration", &d, false, nil}, {"nil *json.RawMessage", nilR, false, nil}, {"*json.RawMessage", &rm, false, nil},
 	}
+	// Go error values: a typed nil pointer is still a (non-nil) error interface value; converting it must not call
+	// its methods on nil
+	var nilPE *fs.PathError
+	var nilUE *ugo.Error
+	for _, ev := range []struct {
+		name string
+		v    any
+	}{{"nil *fs.PathError", error(nilPE)}, {"nil *ugo.Error", nilUE}, {"errors.New", errors.New("e")}, {"*fs.PathError", &fs.PathError{Op: "o", Path: "p", Err: errors.New("x")}}} {
+		for _, nest := range []int{0, 1, 2} {
+			if !c.Next() {
+				continue
+			}
+			c.Nontrivial()
+			in := ev.v
+			switch nest {
+			case 1:
+				in = []any{ev.v, int64(1)}
+			case 2:
+				in = map[string]any{"k": ev.v}
+			}
+			for _, alt := range []bool{false, true} {
+				name, f := "ToObject", ugo.ToObject
+				if alt {
+					name, f = "ToObjectAlt", ugo.ToObjectAlt
+				}
+				o, err, pan := protectObj(func() (ugo.Object, error) { return f(in) })
+				if pan != nil {
+					c.Violation(fmt.Sprintf("X|%s|error %s nest=%d", name, ev.name, nest), fmt.Sprintf("%s(%s nest=%d) panics: %v", name, ev.name, nest, pan), nil)
+					continue
+				}
+				if err == nil {
+					if _, pan := protectAny(func() any { _ = uv.Repr(o); return ugo.ToInterface(o) }); pan != nil {
+						c.Violation(fmt.Sprintf("X|%s|error %s nest=%d", name, ev.name, nest), fmt.Sprintf("the result of %s(%s nest=%d) panics when printed or converted back: %v", name, ev.name, nest, pan), nil)
+					}
+				}
+			}
+		}
+	}
 	// typed nil pointers of the object types the stdlib registers: ToInterface must not panic on them
 	for _, tn := range []struct {
 		name string
@@ -595,7 +635,8 @@ func sameReg(got, want any) bool {
 		return got == nil
 	case time.Time:
 		g, ok := got.(time.Time)
-		return ok && g.Equal(w)
+		// the same instant written in the same zone
+		return ok && g.Equal(w) && g.Format(time.RFC3339Nano) == w.Format(time.RFC3339Nano) && g.Location().String() == w.Location().String()
 	case json.RawMessage:
 		g, ok := got.(json.RawMessage)
 		return ok && string(g) == string(w)
